@@ -29,6 +29,7 @@ var unit = ev.Unit[Case]{
 		if rapid.IntRange(0, 3).Draw(t, "calm") != 0 {
 			g.Calm()
 		}
+		g.Swarm(t)
 		ops := g.Seq(t, doc, ref.Opts{Neg: neg}, 0, 8, 2)
 		esc := rapid.Bool().Draw(t, "spell")
 		dt, pt := gen.Texts(t, doc, ref.OpsTree(ops), esc, "sp")
